@@ -15,6 +15,7 @@ fn usage() -> ! {
 macro_rules! dispatch {
     ($id:expr, $f:ident, $($arg:expr),*) => {
         match $id {
+            "C17" => runner::$f(&props::c17::C17, $($arg),*),
             "C18" => runner::$f(&props::c18::C18, $($arg),*),
             _ => { eprintln!("HARNESS-ERROR: no check for property {}", $id); 2 }
         }
